@@ -495,6 +495,10 @@ def wl_large_dense(ctx, rng, case):
         mk = refimpl.bloom_sizing_simple(est, rate)
         if mk and mk[0] % 8 != 0:
             break
+    if case.index % 3 == 1:
+        # every third: an array whose length is an exact multiple of a power-of-two block size (512 bytes .. 64 KiB)
+        est, rate, *mk = gen.aligned_geometry(rng, max_len=200000)
+        ctx.count("large_dense_block_aligned_arrays")
     m, k = mk
     nbytes = (m + 7) // 8
     # one position in every byte (random bit), grouped k at a time into keys
